@@ -119,7 +119,7 @@ CLAIMED = {
          "C18_frame (field by field either unchanged or ONLY value and unit label changed; all message attributes kept), C18_recognised (exactly TEMPERATURE c/f, PRESSURE bar/psi, ANGLE deg, SPEED kts), C18_lowercase, C18_absent (None stays None), C18_converted_float/int (the formula fed to round), C18_unrecognised (nothing changes), C18_total (no exception on decoder-produced values), C18_commutes (decoding with preferences = converting after decoding without). PARTIAL: numerical accuracy of round(x, n) and math.degrees is assumed (sampled against exact rationals by the search).",
          None, "DESIGN.md §5 C18"),
  "C19": ("Coq proof (invariants over all runs of a labelled transition system of any number of concurrent send() calls with environment-chosen write/drain/callback outcomes) of a hand model of the repaired send() + kernel-evaluated trace correspondence with the four real clients on a virtual-time loop",
-         "C19_exact / C19_exact_call (the packets written by one send are exactly the encoder's packets for its message, in order: all when completed, a prefix in flight or after a fault, none after a failed encoding), C19_contiguous / C19_writer_holds_lock (in EVERY run the writes of two sends do not interleave), C19_bad_message / C19_no_encoder (an encoding failure writes nothing and leaves state, writer, lock, reconnect trigger, status trace and every other send unchanged), C19_write_fault (a failing write/drain releases the lock, reports DISCONNECTED once unless CLOSED and creates a connect task). The encoder is a universally quantified state-passing function; SendProofs.unlocked_interleaves refutes contiguity for the code before fix 22721ce.",
+         "C19_exact / C19_exact_call (the packets written by one send are exactly the encoder's packets for its message, in order: all when completed, a prefix in flight or after a fault, none after a failed encoding), C19_contiguous / C19_writer_holds_lock (in EVERY run the writes of two sends do not interleave), C19_bad_message / C19_no_encoder (an encoding failure writes nothing and leaves state, writer, lock, reconnect trigger, status trace and every other send unchanged), C19_write_fault (a failing write/drain releases the lock, reports DISCONNECTED once unless CLOSED and creates a connect task). The encoder is a universally quantified state-passing function; SendProofs.unlocked_interleaves refutes contiguity for the code before fix 22721ce. C19_exact_for_this_code / C19_contiguous_for_this_code (tools/templates/OblC19.v, per run): the same theorems with `encode` instantiated by the composed encoder of the regenerated tables (function lookup, generated encoder, segmentation with the shared counter as encoder state, wire format).",
          None, "DESIGN.md §5 C19"),
 
  "C13": ("Coq proof of inductive invariants of a labelled transition system (hand model of ioclient.py: connect/_receive_loop/send/close/"
